@@ -269,4 +269,20 @@ CHECKS = {
                  extra=OP_EXTRA, instrument=OP_INSTR, gomaxprocs=1),
         ],
     },
+    "C02": {
+        "level": "model_checking",
+        "engine": "E2+E1",
+        "technique": "exhaustive enumeration of cluster histories x monitor configurations on the real monitor/informer code vs reference sets (plus restart differential); stateless model checking of the start-up window and of concurrent snapshot reads inside one execution",
+        "level_text": "Part a: every history of up to 3 (quick) / 4 (thorough) steps over 14 operations (create / modify / delete of objects in three namespaces, a labelled namespace deleted with its objects, a labelled namespace appearing) with synchronous delivery, for 12 monitor configurations (all namespaces | namespace.nameSelector | namespace.labelSelector x matchNames x jqFilter x keepFullObjectsInMemory): after every step the real Snapshot() equals the reference computed from the cluster (same elements once each, sorted by namespace/name, projection and object presence per item) and equals the snapshot of a fresh monitor on the same cluster (restart). Part b: environment changes interleaved by the scheduler with AddMonitor's LIST and StartMonitor's LIST (5 histories, bound 1/2): once quiet the snapshot equals the cluster. Part c: at operator level, hook executions whose contexts mention one binding several times (Synchronization objects, self-include, group, includeSnapshotsFrom from other bindings and queues) with informer deliveries interleaved: inside one execution every occurrence of a binding's snapshot is identical and the keys of snapshots are exactly the declared ones.",
+        "level_note": "Trusted: hub (per-handler FIFO), fake cluster with a list reactor honouring metadata.name, reference sets. Configurations whose documented meaning is ambiguous are left out (nameSelector and labelSelector on one binding; two bindings with one name).",
+        "rule": "product enumeration of histories x configurations (part a); DFS over interleavings within the bound (parts b, c); non-trivial = history of >= 2 steps / a deviation; distinct = distinct (configuration, snapshot)",
+        "parts": [
+            part("c02a", "pkg/kube_events_manager", "TestVerifC02a", ["zz_verif_c02_test.go", "zz_verif_c01_test.go"], shards={"quick": 16, "thorough": 16},
+                 extra={"pkg/kube_events_manager": ["zz_verif_hub.go"]}, instrument={"files": KEM_INSTR}, gomaxprocs=1),
+            part("c02b", "pkg/kube_events_manager", "TestVerifC02b", ["zz_verif_c02_test.go", "zz_verif_c01_test.go"], shards={"quick": 5, "thorough": 10},
+                 extra={"pkg/kube_events_manager": ["zz_verif_hub.go"]}, instrument={"files": KEM_INSTR}, gomaxprocs=1),
+            part("c02c", "pkg/shell-operator", "TestVerifC02c", ["zz_verif_c02_test.go", "zz_verif_c09_test.go", "zz_verif_c03_test.go", "zz_verif_fixture_test.go"], shards={"quick": 16, "thorough": 16},
+                 extra=OP_EXTRA, instrument=OP_INSTR, gomaxprocs=1),
+        ],
+    },
 }
